@@ -8,34 +8,34 @@ Import ListNotations.
 Open Scope string_scope.
 
 Definition ref_shapes : list (string * string) := [
-  ("handleSignals", "{ ch := make(chan struct{}) go func() { sig := make(chan os.Signal, 1) signal.Notify(sig, syscall.SIGINT, syscall.SIGTERM) defer func() { signal.Stop(sig) close(ch) }() for { select { case <-p.ctx.Done(): return case s := <-sig: if atomic.LoadUint32(&p.ignoreSignals) == 0 { switch s { case syscall.SIGINT: p.Send(InterruptMsg{}) default: p.Send(QuitMsg{}) } } } } }() return ch }");
-  ("handleResize", "{ ch := make(chan struct{}) if p.ttyOutput != nil { go p.checkResize() go p.listenForResize(ch) } else { close(ch) } return ch }");
-  ("listenForResize", "{ sig := make(chan os.Signal, 1) signal.Notify(sig, syscall.SIGWINCH) defer func() { signal.Stop(sig) close(done) }() for { select { case <-p.ctx.Done(): return case <-sig: } p.checkResize() } }");
-  ("checkResize", "{ if p.ttyOutput == nil { return } w, h, err := term.GetSize(p.ttyOutput.Fd()) if err != nil { select { case <-p.ctx.Done(): case p.errs <- err: } return } p.Send(WindowSizeMsg{ Width: w, Height: h, }) }");
-  ("Send", "{ select { case <-p.ctx.Done(): case p.msgs <- msg: } }");
+  ("handleSignals", "{ v1 := make(chan struct{}) go func() { v2 := make(chan os.Signal, 1) signal.Notify(v2, syscall.SIGINT, syscall.SIGTERM) defer func() { signal.Stop(v2) close(v1) }() for { select { case <-p.ctx.Done(): return case v3 := <-v2: if atomic.LoadUint32(&p.ignoreSignals) == 0 { switch v3 { case syscall.SIGINT: p.Send(InterruptMsg{}) default: p.Send(QuitMsg{}) } } } } }() return v1 }");
+  ("handleResize", "{ v1 := make(chan struct{}) if p.ttyOutput != nil { go p.checkResize() go p.listenForResize(v1) } else { close(v1) } return v1 }");
+  ("listenForResize", "{ v1 := make(chan os.Signal, 1) signal.Notify(v1, syscall.SIGWINCH) defer func() { signal.Stop(v1) close(v2) }() for { select { case <-p.ctx.Done(): return case <-v1: } p.checkResize() } }");
+  ("checkResize", "{ if p.ttyOutput == nil { return } v1, v2, v3 := term.GetSize(p.ttyOutput.Fd()) if v3 != nil { select { case <-p.ctx.Done(): case p.errs <- v3: } return } p.Send(WindowSizeMsg{ Width: v1, Height: v2, }) }");
+  ("Send", "{ select { case <-p.ctx.Done(): case p.msgs <- v1: } }");
   ("Quit", "{ p.Send(Quit()) }");
   ("Kill", "{ p.shutdown(true) }");
   ("Wait", "{ <-p.finished }");
-  ("Println", "{ p.Send(printLineMessage{ messageBody: fmt.Sprint(args...), }) }");
-  ("Printf", "{ p.Send(printLineMessage{ messageBody: fmt.Sprintf(template, args...), }) }");
-  ("handleCommands", "{ ch := make(chan struct{}) go func() { defer close(ch) for { select { case <-p.ctx.Done(): return case cmd := <-cmds: if cmd == nil { continue } go func() { if !p.startupOptions.has(withoutCatchPanics) { defer p.recoverFromPanic() } msg := cmd() p.Send(msg) }() } } }() return ch }");
-  ("channelHandlers.shutdown", "{ var wg sync.WaitGroup for _, ch := range h { wg.Add(1) go func(ch chan struct{}) { <-ch wg.Done() }(ch) } wg.Wait() }");
-  ("readLoop", "{ defer close(p.readLoopDone) err := readInputs(p.ctx, p.msgs, p.cancelReader) if !errors.Is(err, io.EOF) && !errors.Is(err, cancelreader.ErrCanceled) { select { case <-p.ctx.Done(): case p.errs <- err: } } }");
+  ("Println", "{ p.Send(printLineMessage{ messageBody: fmt.Sprint(v1...), }) }");
+  ("Printf", "{ p.Send(printLineMessage{ messageBody: fmt.Sprintf(v1, v2...), }) }");
+  ("handleCommands", "{ v1 := make(chan struct{}) go func() { defer close(v1) for { select { case <-p.ctx.Done(): return case v2 := <-v3: if v2 == nil { continue } go func() { if !p.startupOptions.has(withoutCatchPanics) { defer p.recoverFromPanic() } v4 := v2() p.Send(v4) }() } } }() return v1 }");
+  ("channelHandlers.shutdown", "{ var v1 sync.WaitGroup for _, v2 := range h { v1.Add(1) go func(v3 chan struct{}) { <-v3 v1.Done() }(v2) } v1.Wait() }");
+  ("readLoop", "{ defer close(p.readLoopDone) v1 := readInputs(p.ctx, p.msgs, p.cancelReader) if !errors.Is(v1, io.EOF) && !errors.Is(v1, cancelreader.ErrCanceled) { select { case <-p.ctx.Done(): case p.errs <- v1: } } }");
   ("waitForReadLoop", "{ select { case <-p.readLoopDone: case <-time.After(500 * time.Millisecond): } }");
-  ("exec", "{ if err := p.ReleaseTerminal(); err != nil { if fn != nil { go p.Send(fn(err)) } return } c.SetStdin(p.input) c.SetStdout(p.output) c.SetStderr(os.Stderr) if err := c.Run(); err != nil { _ = p.RestoreTerminal() if fn != nil { go p.Send(fn(err)) } return } err := p.RestoreTerminal() if fn != nil { go p.Send(fn(err)) } }");
-  ("suspend", "{ if err := p.ReleaseTerminal(); err != nil { return } suspendProcess() _ = p.RestoreTerminal() go p.Send(ResumeMsg{}) }");
-  ("Batch", "{ var validCmds []Cmd for _, c := range cmds { if c == nil { continue } validCmds = append(validCmds, c) } switch len(validCmds) { case 0: return nil case 1: return validCmds[0] default: return func() Msg { return BatchMsg(validCmds) } } }");
-  ("Sequence", "{ return func() Msg { return sequenceMsg(cmds) } }");
+  ("exec", "{ if v1 := p.ReleaseTerminal(); v1 != nil { if v2 != nil { go p.Send(v2(v1)) } return } v3.SetStdin(p.input) v3.SetStdout(p.output) v3.SetStderr(os.Stderr) if v4 := v3.Run(); v4 != nil { _ = p.RestoreTerminal() if v2 != nil { go p.Send(v2(v4)) } return } v5 := p.RestoreTerminal() if v2 != nil { go p.Send(v2(v5)) } }");
+  ("suspend", "{ if v1 := p.ReleaseTerminal(); v1 != nil { return } suspendProcess() _ = p.RestoreTerminal() go p.Send(ResumeMsg{}) }");
+  ("Batch", "{ var v1 []Cmd for _, v2 := range v3 { if v2 == nil { continue } v1 = append(v1, v2) } switch len(v1) { case 0: return nil case 1: return v1[0] default: return func() Msg { return BatchMsg(v1) } } }");
+  ("Sequence", "{ return func() Msg { return sequenceMsg(v1) } }");
   ("standardRenderer.start", "{ if r.ticker == nil { r.ticker = time.NewTicker(r.framerate) } else { r.ticker.Reset(r.framerate) } r.once = sync.Once{} go r.listen() }");
-  ("standardRenderer.stop", "{ r.once.Do(func() { r.done <- struct{}{} }) r.flush() r.mtx.Lock() defer r.mtx.Unlock() r.execute(ansi.EraseEntireLine) r.execute(""\r"") if r.useANSICompressor { if w, ok := r.out.(io.WriteCloser); ok { _ = w.Close() } } }");
+  ("standardRenderer.stop", "{ r.once.Do(func() { r.done <- struct{}{} }) r.flush() r.mtx.Lock() defer r.mtx.Unlock() r.execute(ansi.EraseEntireLine) r.execute(""\r"") if r.useANSICompressor { if v1, v2 := r.out.(io.WriteCloser); v2 { _ = v1.Close() } } }");
   ("standardRenderer.kill", "{ r.once.Do(func() { r.done <- struct{}{} }) r.mtx.Lock() defer r.mtx.Unlock() r.execute(ansi.EraseEntireLine) r.execute(""\r"") }");
   ("standardRenderer.listen", "{ for { select { case <-r.done: r.ticker.Stop() return case <-r.ticker.C: r.flush() } } }");
-  ("shutdown", "{ p.cancel() p.handlers.shutdown() if p.cancelReader != nil { if p.cancelReader.Cancel() { if !kill { p.waitForReadLoop() } } _ = p.cancelReader.Close() } if p.renderer != nil { if kill { p.renderer.kill() } else { p.renderer.stop() } } _ = p.restoreTerminalState() p.finishOnce.Do(func() { close(p.finished) }) }");
-  ("recoverFromPanic", "{ if r := recover(); r != nil { p.handlePanic(r) } }");
-  ("handlePanic", "{ p.shutdown(true) fmt.Printf(""Caught panic:\n\n%s\n\nRestoring terminal...\n\n"", r) debug.PrintStack() }");
-  ("initCancelReader", "{ if cancel && p.cancelReader != nil { p.cancelReader.Cancel() p.waitForReadLoop() } var err error p.cancelReader, err = newInputReader(p.input, p.mouseMode) if err != nil { return fmt.Errorf(""error creating cancelreader: %w"", err) } p.readLoopDone = make(chan struct{}) go p.readLoop() return nil }");
-  ("eventLoop:sequenceMsg", "go func() { for _, cmd := range msg { if cmd == nil { continue } msg := cmd() if batchMsg, ok := msg.(BatchMsg); ok { g, _ := errgroup.WithContext(p.ctx) for _, cmd := range batchMsg { cmd := cmd g.Go(func() error { p.Send(cmd()) return nil }) } g.Wait() continue } p.Send(msg) } }()");
-  ("eventLoop:BatchMsg", "for _, cmd := range msg { select { case <-p.ctx.Done(): return model, nil case cmds <- cmd: } } ; continue")
+  ("shutdown", "{ p.cancel() p.handlers.shutdown() if p.cancelReader != nil { if p.cancelReader.Cancel() { if !v1 { p.waitForReadLoop() } } _ = p.cancelReader.Close() } if p.renderer != nil { if v1 { p.renderer.kill() } else { p.renderer.stop() } } _ = p.restoreTerminalState() p.finishOnce.Do(func() { close(p.finished) }) }");
+  ("recoverFromPanic", "{ if v1 := recover(); v1 != nil { p.handlePanic(v1) } }");
+  ("handlePanic", "{ p.shutdown(true) fmt.Printf(""Caught panic:\n\n%s\n\nRestoring terminal...\n\n"", v1) debug.PrintStack() }");
+  ("initCancelReader", "{ if v1 && p.cancelReader != nil { p.cancelReader.Cancel() p.waitForReadLoop() } var v2 error p.cancelReader, v2 = newInputReader(p.input, p.mouseMode) if v2 != nil { return fmt.Errorf(""error creating cancelreader: %w"", v2) } p.readLoopDone = make(chan struct{}) go p.readLoop() return nil }");
+  ("eventLoop:sequenceMsg", "go func() { for _, v1 := range v2 { if v1 == nil { continue } v3 := v1() if v4, v5 := v3.(BatchMsg); v5 { v6, _ := errgroup.WithContext(p.ctx) for _, v7 := range v4 { v8 := v7 v6.Go(func() error { p.Send(v8()) return nil }) } v6.Wait() continue } p.Send(v3) } }()");
+  ("eventLoop:BatchMsg", "for _, v1 := range v2 { select { case <-p.ctx.Done(): return v3, nil case v4 <- v1: } } ; continue")
 ].
 
 (* the cases of eventLoop's type switch (message types, how the case ends), frozen: a message kind that gains or loses
